@@ -59,6 +59,15 @@ PROPS = {
         "level_note": "Trusted: Lean kernel; standard axioms; mirrors of soft_resource.go (check/Get/Set), wrapper.go (getField/setField/Get/Set), resource.go Equal/EqualStrict validated by correspondence; fmt %T type names tabulated; reflect.DeepEqual modelled as structural equality of the value model (identity of *time.Location is not modelled: equality cases use UTC times). Domain: field names are not 'id' (Get('id') is the resource ID) and, for wrapped structs, the type is declarable as a struct (Spec.structable).",
         "assumptions": ["reflect.DeepEqual on the 30 value types = structural equality of GoVal", "fmt %T names as tabulated"],
     },
+    "C19": {
+        "theorems": ["C19_step", "C19_refines_from", "C19_init", "C19_refines", "C19_only_add_panics", "C19_len", "C19_at",
+                     "C19_resource", "C19_fields", "C19_remove_first", "C19_zero_for_later_attr", "C19_zero_for_later_rel",
+                     "C19_zero_for_later_fields", "C19_snapshot", "C19_rows_stable"],
+        "suites": [("collection", 1200, 40000)],
+        "level_text": "Simulation by induction over every history of Add, Remove, AddAttr, AddRel and SetType (C19_refines): the SoftCollection model (shared type pointer, lazy check() with materialised zeros and pruning) refines a plain ordered list of rows (id + snapshot of accepted values) read through the current type; Len, At (nil out of range), Resource, 'exactly the current fields', 'zero for fields added later', 'Remove deletes the first match only' and 'Add depends only on what is read from its argument' are corollaries, unbounded. Correspondence replays random histories (resources of the collection's type, narrower, wider, conflicting, soft and wrapped, duplicate IDs) on the real SoftCollection and on the model and compares the full dump after every call; the Go side keeps its own ordered list as oracle and also mutates the added resource afterwards to check the snapshot.",
+        "level_note": "Trusted: Lean kernel; standard axioms; mirror of soft_collection.go and soft_resource.go (check, AddAttr, AddRel, Set) validated by correspondence. Domain decisions (DESIGN.md): no field of an added resource is called 'id'; SetType's new type keeps the definition of every field name it shares with the current type (redefining the kind of a stored field is outside the domain).",
+        "assumptions": ["all stored resources share the collection's *Type (modelled by keeping the type in the collection)"],
+    },
     "C20": {
         "theorems": ["C20_reject", "C20_accept_build", "C20_type_exact", "C20_accept_safe", "C20_zero_WT", "C20_fields_not_ID"],
         "facts": ["Facts.checkAttrTypes: the attribute type names accepted by Check, regenerated (checkAttrTypes_iff is a decide-checked obligation)"],
